@@ -5,7 +5,7 @@ import os, sys, json, random, subprocess, time, shutil, re, itertools
 HERE = os.path.dirname(os.path.abspath(__file__))
 sys.path.insert(0, HERE)
 import corpus, pipeline, gen_defs, reflex
-from lexast import (def_lines, print_re, re_tokens, iv_norm, iv_diff, iv_contains, CHAR_MAX, is_scalar, rules_in_order)
+from lexast import (def_lines, print_re, re_tokens, print_tokens, render_tokens, tokens_for_lean, iv_norm, iv_diff, iv_contains, CHAR_MAX, is_scalar, rules_in_order)
 
 VERIF = os.path.dirname(HERE)
 LEAN = os.path.join(VERIF, 'lean')
@@ -770,9 +770,36 @@ def check_C16(tier, seed, res, builtins, log):
     for d in defs:
         lines.append('parse ' + def_text_for_parser(d, None))
         lines.append('parse ' + def_text_for_parser(d, rng))
+    # single regexes as token lists: minimal, redundant, and random token soups (mostly malformed),
+    # for the Lean parser model against the real parser
+    tok_cases = []
+    for d in defs[: n // 2]:
+        it = d['items'][-1] if d['items'][-1][0] == 'rule' else d['items'][0][2][-1]
+        tok_cases.append((print_tokens(it[2], 0, None), it[2]))
+        tok_cases.append((print_tokens(it[2], 0, rng), it[2]))
+    alphabet = [('(',), (')',), ('[',), (']',), ('$',), ('id', 'x'), ('c', 97), ('c', 98), ('s', [97, 98]), ('_',), ('|',), ('*',), ('+',), ('?',), ('#',), ('-',)]
+    for _ in range(n // 2):
+        k = rng.randint(1, 7)
+        soup = [rng.choice(alphabet) for _ in range(k)]
+        # keep delimiters balanced (an unbalanced group is rejected by rustc's own lexer before the macro sees it)
+        depth, ok = [], True
+        for t in soup:
+            if t[0] in '([':
+                depth.append(t[0])
+            elif t[0] in ')]':
+                if not depth or (depth[-1] == '(') != (t[0] == ')'):
+                    ok = False
+                    break
+                depth.pop()
+        if ok and not depth:
+            tok_cases.append((soup, None))
+    n_def_lines = len(lines)
+    for toks, _tree in tok_cases:
+        lines.append('parse L -> u32; ' + render_tokens(toks) + ' = 1,')
     impl, err = component_server('lexgen', lines)
     if impl is None:
         return {'unresolved': [{'site': 'component server parse', 'what': err, 'no_failing_input': True, 'definition': None, 'input': None, 'script': None}]}
+    model = lexmodel_lines(['PARSE ' + tokens_for_lean(toks) + ' =' for toks, _ in tok_cases])
     violations, unresolved = [], []
     distinct = set()
     for i, d in enumerate(defs):
@@ -785,6 +812,30 @@ def check_C16(tier, seed, res, builtins, log):
                 violations.append({'definition': lines[2 * i + k][len('parse '):], 'site': 'parser', 'input': None, 'script': None,
                                    'what': 'the parser reads a %s printing of a tree as a different tree' % ('minimal' if k == 0 else 'redundantly parenthesised'),
                                    'actual': got, 'expected': exp})
+    n_model_agree = 0
+    n_soup_accept = 0
+    for j, (toks, tree) in enumerate(tok_cases):
+        got = impl[n_def_lines + j]
+        got = got[len('parse '):] if got.startswith('parse ') else got
+        # normalise the real parser's verdict: 'OK | rule re <tokens>' -> 'ok <tokens>'; ERR/PANIC -> 'err'
+        if got.startswith('OK'):
+            real = 'ok ' + ' '.join(got.split('|', 1)[1].split()[2:]) if '|' in got else 'err'
+        else:
+            real = 'err'
+        m = model[j][len('PARSE '):].strip() if j < len(model) and model[j].startswith('PARSE ') else None
+        if tree is not None:
+            exp = 'ok ' + ' '.join(re_tokens(tree, []))
+            if real != exp and len(violations) < 8:
+                violations.append({'definition': lines[n_def_lines + j][len('parse '):], 'site': 'parser', 'input': None, 'script': None,
+                                   'what': 'the parser reads a printing of a tree as a different tree', 'actual': real, 'expected': exp})
+                continue
+        elif real.startswith('ok'):
+            n_soup_accept += 1
+        if m is not None and m == real:
+            n_model_agree += 1
+        elif m is not None and len(unresolved) < 3:
+            unresolved.append({'definition': lines[n_def_lines + j][len('parse '):], 'site': 'Parser model', 'input': None, 'script': None, 'no_failing_input': True,
+                               'what': 'correspondence no longer checks: Lean parser model `%s` vs real parser `%s` on tokens `%s`' % (m, real, tokens_for_lean(toks))})
     # the real macro path: dumped ASTs of the shared corpus equal the generator's trees
     n_ast = 0
     for nm, pr in res['programs'].items():
@@ -793,7 +844,8 @@ def check_C16(tier, seed, res, builtins, log):
             if not pr['ast_equal'] and len(violations) < 8:
                 violations.append({'definition': pr['text'], 'def_json': pr['json'], 'site': 'macro parser', 'input': None, 'script': None,
                                    'what': 'the macro parsed the definition into a different tree', 'actual': pr['ast_dump'][:12], 'expected': pr['def'][:12]})
-    cov = {'evaluations': 2 * len(defs) + n_ast, 'distinct_nontrivial': len(distinct), 'programs': n_ast,
+    cov = {'evaluations': 2 * len(defs) + n_ast + len(tok_cases), 'distinct_nontrivial': len(distinct), 'programs': n_ast,
+           'parser_model_cases': len(tok_cases), 'parser_model_agreements': n_model_agree, 'token_soups_accepted_by_both': n_soup_accept,
            'rule': 'random regex trees printed with minimal and with random redundant parentheses, parsed by the real parser (in-crate server, real syn tokenisation); plus dumped ASTs of the corpus on the macro path',
            'samples': [{'text': lines[0][6:], 'parsed': impl[0][:200]}]}
     return {'violations': violations, 'unresolved': unresolved, 'coverage': cov,
